@@ -185,6 +185,8 @@ def required_cells(tier):
         "api:pttebd": 10, "e2e:m<=30": 500, "e2e:m>30": 4,
         "e2e:quotient-below-integer": 20,
         "pttempo-refuses-n<2": 4, "tebd:query-between-computes": 2,
+        "num_steps:0": 20, "num_steps:>0": 20, "reimported-pt:file": 5,
+        "reimported-pt:simple": 5,
     }
     req = {"pts/" + k: v for k, v in pts.items()}
     req.update({"labels_checked": 1000, "states_aligned": 1000,
@@ -710,6 +712,67 @@ def _e2e_point(book, dt, start, end, n, m, tag, apis, shortcut):
                                   ra, det)
             worst = max(worst, _check_states(book, api, model, dyn.states,
                                              steps, start, dt, det))
+    # -- only the first k steps of a longer process tensor (k = 0: the
+    #    initial state alone, labelled start), and no process tensor at all
+    if "compute_dynamics" in apis:
+        for k in sorted({0, 1, min(3, length)}):
+            for ra in (True, False):
+                ratag = "all" if ra else "final"
+                for with_pt in (True, False):
+                    kw = dict(process_tensor=pt) if with_pt else dict(dt=dt)
+                    dyn = oqupy.compute_dynamics(
+                        tdsys, RHO0, start_time=start, num_steps=k,
+                        record_all=ra, subdiv_limit=None,
+                        progress_type="silent", **kw)
+                    api = "compute_dynamics:" + ratag
+                    book.cell("num_steps:%s" % ("0" if k == 0 else ">0"))
+                    steps = _check_labels(book, api, dyn.times, start, dt, k,
+                                          ra, dict(det, num_steps=k,
+                                                   with_pt=with_pt))
+                    if with_pt:
+                        worst = max(worst, _check_states(
+                            book, api, model, dyn.states, steps, start, dt,
+                            det))
+        if "with_field" in apis:
+            for k in (0, 1):
+                md = oqupy.compute_dynamics_with_field(
+                    mfs, FIELD0, process_tensor_list=[pt],
+                    initial_state_list=[RHO0], start_time=start,
+                    num_steps=k, subdiv_limit=None, progress_type="silent")
+                book.cell("num_steps:%s" % ("0" if k == 0 else ">0"))
+                steps = _check_labels(book, "with_field:all", md.times,
+                                      start, dt, k, True,
+                                      dict(det, num_steps=k))
+                _check_fields(book, "with_field:all", model, md.fields,
+                              steps, dt, det)
+        # -- the same process tensor after export and import: same dt (to the
+        #    last bit), same labels
+        if m % 3 == 0:
+            import os
+            import tempfile
+            tmpd = tempfile.mkdtemp(prefix="vp_c13_")
+            try:
+                fn = os.path.join(tmpd, "pt.hdf5")
+                pt.export(fn)
+                for how in ("file", "simple"):
+                    pt2 = oqupy.import_process_tensor(fn, how)
+                    book.cell("reimported-pt:" + how)
+                    if pt2.dt != dt:
+                        book.violation(
+                            f"process tensor re-imported as {how!r} reports "
+                            f"dt {pt2.dt!r}, written with {dt!r}", "pt-dt",
+                            dict(det, got=pt2.dt))
+                    dyn = oqupy.compute_dynamics(
+                        tdsys, RHO0, start_time=start, process_tensor=pt2,
+                        subdiv_limit=None, progress_type="silent")
+                    _check_labels(book, "compute_dynamics:all", dyn.times,
+                                  start, dt, length, True,
+                                  dict(det, reimported=how))
+                    if hasattr(pt2, "close"):
+                        pt2.close()
+            finally:
+                import shutil
+                shutil.rmtree(tmpd, ignore_errors=True)
     return worst
 
 
